@@ -535,7 +535,7 @@ func (c *caseT) honestVotes(r *vh.RNG, w *world, lb *lookBack, seed common.Hash,
 		if j <= 0 {
 			continue
 		}
-		at := atomPlan{key: s.key, round: round, index: ri}
+		at := atomPlan{key: s.bls(), round: round, index: ri}
 		v := votePlan{idx: uint32(lb.indexOf(i)), votes: uint32(j), proof: pp}
 		if blsOn {
 			p.atoms = append(p.atoms, at)
